@@ -236,5 +236,23 @@ def run(tier: str) -> Run:
             # one finding per kernel and failure kind, not per grid point
             r4.check(not verdicts, inst, loc(fi), {'problems': verdicts[:2], 'expected': expect}, key=fkey)
     run.extra['dtype_grid_points'] = n_grid
+
+    # R5: re-expressing an input in another unit must not push a single-precision intermediate out of float32
+    r5 = run.rule('R5', 'over the unit grid (ns..s, angstrom/mm/m/km, ueV..J, deg/rad) and the physical ranges of the inputs, no float32 '
+                        'power-product intermediate leaves the normal range of float32', 11)
+    from checks.magrule import RANGES, UNIT_GRID, worst_f32
+    run.extra['magnitude_ranges_SI'] = {k: list(v) for k, v in RANGES.items()}
+    run.extra['unit_grid'] = {k: list(v) for k, v in UNIT_GRID.items()}
+    for name in DATA_OPERANDS:
+        if name not in TOF_UNITS:
+            continue
+        fi = repo.func('conversion.tof', name)
+        worst, n_runs, n_products = worst_f32(repo, fi, fixed_same=[('L1', 'L2')], corners=tier == 'quick')
+        if n_runs == 0:
+            continue
+        if n_products == 0:
+            raise AnalysisError(f'{fi.fq}: no single-precision intermediate was recorded for float32 inputs')
+        r5.check(worst is None, name, loc(fi), {'unit_assignments': n_runs, 'power_products_bounded': n_products, 'worst': worst},
+                 key=f'conversion.tof:{name}:f32-range')
     run.exhaustive = tier == 'thorough'
     return run
